@@ -57,14 +57,23 @@ def configs(tier):
                 continue
             fl = flagsets[(i // step) % len(flagsets)]
             out.append(dict(D=D, k=kk[0], kf=kk[1], M=list(M), stride=st, rdil=rd, ldil=ld, padding=pd, flags=list(fl)))
+    # toroidal images NARROWER than the reach of the dilated filter (the wrap runs over several periods): concrete small extents
+    out.append(dict(D=2, k=0, kf=1, M=[3, 3], stride=1, rdil=3, ldil=None, padding="TORUS", flags=[True, True], N=[2, 3]))
+    out.append(dict(D=2, k=1, kf=0, M=[3, 3], stride=1, rdil=4, ldil=None, padding=None, flags=[True, False], N=[3, 2]))
+    if not q:
+        out.append(dict(D=2, k=0, kf=0, M=[5, 3], stride=1, rdil=2, ldil=None, padding="TORUS", flags=[True, True], N=[3, 1]))
+        out.append(dict(D=3, k=0, kf=1, M=[3, 3, 3], stride=1, rdil=3, ldil=None, padding="TORUS", flags=[True, True, False], N=[2, 2, 3]))
     return out
 
 
 def jobs(tier):
     out = []
     cfgs = configs(tier)
+    narrow = [c for c in cfgs if c.get("N")]
+    cfgs = [c for c in cfgs if not c.get("N")]
     for i in range(0, len(cfgs), 3):
         out.append(("gvc.props.c04", "ob_convolve", dict(cfgs=cfgs[i:i + 3])))
+    out.append(("gvc.props.c04", "ob_convolve", dict(cfgs=narrow, tag="narrow-torus")))
     for D in [2, 3]:
         for (k, kf) in ([(0, 1), (1, 1), (1, 2)] if tier == "quick" else [(0, 1), (1, 1), (1, 2), (2, 2), (2, 3)]):
             if D == 3 and kf > 2 and tier == "quick":
@@ -76,8 +85,10 @@ def jobs(tier):
     return out
 
 
-def _setup(D, k, kf, M, minext=None):
+def _setup(D, k, kf, M, minext=None, N=None):
     W = World(D)
+    if N is not None:           # concrete (small) extents: images narrower than the reach of the dilated filter
+        W.spatial = [Atom(int(n), f"N{i}") for i, n in enumerate(N)]
     B = Atom(sint("batch", W.pre), "batch")
     ci = Atom(sint("in_c", W.pre), "in_c")
     co = Atom(sint("out_c", W.pre), "out_c")
@@ -96,24 +107,26 @@ def _padding_value(pd, D, pre):
     return pd
 
 
-def ob_convolve(cfgs):
+def ob_convolve(cfgs, tag=None):
     Fm = F()
     obs = []
     arr.ENUM_SMALL[0] = 3
     for c in cfgs:
         D, k, kf, M = c["D"], c["k"], c["kf"], tuple(c["M"])
-        W, A, Fl = _setup(D, k, kf, M)
+        W, A, Fl = _setup(D, k, kf, M, N=c.get("N"))
         pre = W.pre
         flags = tuple(c["flags"])
         pd = _padding_value(c["padding"], D, pre)
         rd = c["rdil"]
         # pre-condition of the wrap model / statement: the image is at least as large as the wrap width
         for d in range(D):
+            if c.get("N") is not None:
+                continue        # concrete small extents: the wrap may run over several periods (modelled exactly for concrete n)
             # at least one output pixel / image at least as large as the dilated filter (covers the wrap width too)
             pre.append(zi(W.spatial[d].ext) >= rd * (M[d] - 1) + 1)
         ld = None if c["ldil"] is None else (c["ldil"],) * D
         stride = c["stride"]
-        name = "C04/convolve/" + ",".join(f"{a}={c[a]}" for a in ["D", "k", "kf", "M", "stride", "rdil", "ldil", "padding", "flags"])
+        name = "C04/convolve/" + ",".join(f"{a}={c[a]}" for a in ["D", "k", "kf", "M", "stride", "rdil", "ldil", "padding", "flags"] + (["N"] if c.get("N") else []))
 
         def body(D=D, A=A, Fl=Fl, flags=flags, stride=stride, pd=pd, ld=ld, rd=rd, pre=pre):
             spec = conv_sym(A, Fl, D, flags, (stride,) * D, pd, (1,) * D if ld is None else ld, (rd,) * D)
